@@ -50,6 +50,10 @@ def check_C03(chk):
     c03a(chk)
     c03b(chk)
     c03c(chk)
+    # shared clause: `sfs view --project-*` is how a spectrum is projected from the command line: the project step runs whenever its option is
+    # given, whatever the shapes are (no `same size => skip` shortcut), and its result is what is written (C13.a/b on View::run)
+    import rules_view as RV3_
+    chk.borrow_check(RV3_.check_C13, {"C13.a", "C13.b"}, "C03.e", 4, keys=lambda k: "project" in k)
     before = len(chk.obs)
     RC.c02g(chk)
     rs = None
@@ -454,6 +458,12 @@ def check_C04(chk):
     c04c(chk)
     c04d(chk)
     c04e(chk)
+    # shared clauses: `sfs view --marginalize-*` runs the marginalize step whenever its option is given and writes its result (C13.a/b/d on
+    # View::run); the axis views that Array::sum adds up are iterated completely, once (C19.b-d)
+    import rules_view as RV4_
+    import rules_panic as RP4_
+    chk.borrow_check(RV4_.check_C13, {"C13.a", "C13.b", "C13.d"}, "C04.f", 5, keys=lambda k: "marginalize" in k or "keep" in k or "complement" in k)
+    chk.borrow_check(RP4_.check_C19, {"C19.b", "C19.c", "C19.d"}, "C04.g", 8)
     for r, n in (("C04.a", 6), ("C04.c", 4), ("C04.d", 5), ("C04.e", 3)):
         chk.floor(r, n)
 
@@ -1211,6 +1221,12 @@ def _c05a(chk):
             recv = an.arg_pointee(g, isp[0][1], 0)
             ok = ok and recv is not None and recv[0] == an.call_dest_local(fo[0][1])
         chk.ob("C05.a", "Fold::run=fold().into_spectrum(fill)", ok, g.loc(), "the folded spectrum is filled with the requested value and written")
+        # must pass through: nothing is written that was not folded by this run (an `already folded` pass-through decides from the values
+        # whether to fold, and folding is then no longer the same map for every input)
+        wr = [(b, t) for b, t in g.calls() if callee_name(t["callee"]).split("::")[-1] in ("write_to_path_or_stdout", "write_to_path", "write_to_stdout")]
+        und = [g.loc(b) for b, t in wr if not (len(fo) == 1 and len(isp) == 1 and g.dominates(fo[0][0], b) and g.dominates(isp[0][0], b))]
+        chk.ob("C05.a", "Fold::run/every-write-is-dominated-by-fold-and-fill", bool(wr) and not und, g.loc(),
+               "each of the %d write call(s) is dominated by the fold() and the into_spectrum() call (not dominated: %s)" % (len(wr), und or "none"))
     h = chk.fn(FOLDED + "into_spectrum")
     if h is not None:
         mp = an.calls(h, N.MAP)
